@@ -8,7 +8,7 @@ namespace Minimq
 theorem MAXV : Gen.MQTT_VARINT_MAX = 268435455 := by decide
 
 theorem encodeVarint_length (n : Nat) : (encodeVarint n).length = varintLen n := by
-  unfold encodeVarint varintLen
+  unfold encodeVarint varintLen Gen.varintLen
   repeat' split
   all_goals simp
   all_goals omega
